@@ -174,7 +174,7 @@ impl Stream for Range {
                 }
             }
             Sign::Minus => {
-                ((end - start - step + NInt::Small(1)).max(NInt::Small(0)) / (-step)).to_usize()
+                ((start - end - step - NInt::Small(1)).max(NInt::Small(0)) / (-step)).to_usize()
             }
             Sign::Plus => {
                 ((end - start + step - NInt::Small(1)).max(NInt::Small(0)) / step).to_usize()
